@@ -305,7 +305,7 @@ def run(ctx, ck) -> None:
         weak_zero = start == ('const', '0') or (start[0] == 'call' and show(start[1]) in ('jnp.array', 'jnp.asarray') and start[2] == (('const', '0'),) and not start[3])
         ck.expect('V6', weak_zero, fn, f'the sum starts from a weakly typed integer zero ({show(start)}): the result keeps the dtype of the products',
                   f'the sum starts from {show(start)}, which is not a weakly typed integer zero: the accumulator promotes the products (integer leaves become floats and lose exactness above 2**24, '
-                  'half precision leaves become single precision)', instance='dot accumulator')
+                  'half precision leaves become single precision)', instance='dot accumulator', semantic=True)
     fn = helper('as_promoted_dtype')
     x = ('var', fn.args.args[0].arg)
     promo = ('call', ('attr', ('var', 'jnp'), 'result_type'), (('star', ('call', ('attr', ('attr', ('var', 'jax'), 'tree'), 'leaves'), (x,), ())),), ())
